@@ -1,18 +1,16 @@
 #!/bin/sh
-# tools/cmp.sh <suite> [seed] [n] [tier] — quick manual correspondence run: prints mismatches and oracle failures
+# tools/cmp_local.sh <suite> [seed] [n] [tier] — like cmp.sh but keeps its files in out/cmp (inside the worktree)
 S=$1; SEED=${2:-1}; N=${3:-200}; TIER=${4:-quick}
-D=$(mktemp -d /var/tmp/kvcmp.XXXXXX)
 R=$(cd "$(dirname "$0")/.." && pwd)
+D=$R/out/cmp; mkdir -p $D
 H=$R/harness/target/debug/kv-harness
 T=$R/lean/.lake/build/bin/kira_twin
 $H gen $S $SEED $N $TIER | grep -v '^#' > $D/ops.txt
-# the twin runs first; `twin_first` suites read its trace through KV_TWIN_TRACE (others ignore it)
 $T $S < $D/ops.txt > $D/model.txt
 KV_TWIN_TRACE=$D/model.txt $H run $S < $D/ops.txt > $D/impl_all.txt
 grep -v '^!' $D/impl_all.txt > $D/impl.txt
 wc -l $D/ops.txt $D/impl.txt $D/model.txt | head -3
 paste -d'|' $D/ops.txt $D/impl.txt $D/model.txt | awk -F'|' '$2!=$3' > $D/diff.txt
-echo "mismatches: $(wc -l < $D/diff.txt)   oracle failures: $(grep -c '^!oracle' $D/impl_all.txt)   faults: $(grep -c '^fault' $D/impl.txt)"
-head -${5:-10} $D/diff.txt
+echo "mismatches: $(wc -l < $D/diff.txt)   oracle failures: $(grep -c '^!oracle' $D/impl_all.txt)"
+cut -c1-300 $D/diff.txt | head -${5:-10}
 grep '^!oracle' $D/impl_all.txt | awk '{print $2}' | sort | uniq -c
-echo "dir: $D"
